@@ -283,3 +283,55 @@ def run_refreplace(prog, ctx=None):
                 res.ob("%s:%s" % (f.qn, norm(show(e, f))[:60]), used, f, e.get("l", 0),
                        "" if used else "result of addref() ignored: a counter that cannot be raised (0 or overflow) is taken as a new reference")
     return res
+
+
+def run_reforder(prog, ctx=None):
+    """REFORDER: when a reference slot is replaced, the new referent is retained before the old one is released
+    (the addref call dominates the unref call): otherwise assigning an object to the handle that holds its last
+    reference destroys it first"""
+    res = Result("REFORDER")
+    files = set(ctx.get("files", [])) if ctx else None
+    for f in funcs_of(prog, files):
+        adds, unrefs = [], []
+        for b, i, e in f.elements():
+            if e.get("k") == "call" and e.get("callee") is not None:
+                cal = strip(e["callee"], all_casts=True)
+                if cal.get("k") == "mem" and cal.get("f") in ("addref", "unref") and e.get("args"):
+                    x = strip(e["args"][0], all_casts=True)
+                    if x.get("k") == "ref" and "id" in x["d"]:
+                        (adds if cal["f"] == "addref" else unrefs).append((b, i, e, x["d"]))
+        if not adds or not unrefs:
+            continue
+        # slot stores *p = v  /  X->slot = v  where v is the addref'ed variable
+        dom = f.dominators()
+        for ab, ai, ae, av in adds:
+            stored = False
+            for b, i, e in f.elements():
+                for n in walk_own(e):
+                    if n.get("k") == "bin" and n.get("op") == "=":
+                        l = strip(n["a"], lvalue_to_rvalue=False)
+                        r = strip(n["b"], all_casts=True)
+                        if l.get("k") in ("un", "mem") and r.get("k") == "ref" and r["d"].get("id") == av["id"]:
+                            stored = (b, i, l)
+            if not stored:
+                continue
+            slot_txt = norm(show(stored[2], f))
+            for ub, ui, ue, uv in unrefs:
+                if uv["id"] == av["id"]:
+                    continue
+                # the released variable was loaded from that slot
+                loaded = False
+                for b, i, n in f.walk_all():
+                    if n.get("k") == "bin" and n.get("op") == "=":
+                        l = strip(n["a"], lvalue_to_rvalue=False)
+                        if l.get("k") == "ref" and l["d"].get("id") == uv["id"] and norm(show(strip(n["b"], all_casts=True), f)) == slot_txt:
+                            loaded = True
+                if not loaded:
+                    continue
+                # order on the CFG: the release must not be able to run before the retain
+                # (the retain may be skipped for a NULL new value, so dominance is not required)
+                ok = (ab.id == ub.id and ai < ui) or (ab.id != ub.id and ub.id in f.reachable_from(ab.id) and ab.id not in f.reachable_from(ub.id))
+                res.ob("%s:retain %s before release %s" % (f.qn, av["n"], uv["n"]), ok, f, ue.get("l", 0),
+                       "" if ok else "%s (old value of %s) is released before %s is retained: if both are the same object and this was its last reference it is destroyed and then used" % (
+                           uv["n"], slot_txt, av["n"]))
+    return res
